@@ -24,7 +24,7 @@ CLASSES = ["Discretizer", "QuantitativeDiscretizer", "QualitativeDiscretizer", "
 # ------------------------------------------------------------------------------------------------
 def gen_quant_column(rng, n, flavour=None):
     flavour = flavour or rng.choice(["uniform", "uniform", "discrete", "yyyymm", "close", "big",
-                                     "negative", "tiny", "halves", "timestamp", "near_constant"])
+                                     "negative", "tiny", "halves", "timestamp", "near_constant", "ulps"])
     if flavour == "uniform":
         lo, hi = rng.choice([(0, 1), (-5, 5), (0, 1000), (-1e6, 1e6)])
         xs = [rng.uniform(lo, hi) for _ in range(n)]
@@ -43,6 +43,10 @@ def gen_quant_column(rng, n, flavour=None):
         k = rng.randint(3, 9)
         base, step = rng.choice([(1700000000, 1), (1700000000, 7), (1.5e12, 1), (123456789012.0, 0.5),
                                  (1.0, 2.0 ** -40), (99999999.0, 0.125)])
+        xs = [base + rng.randint(0, k - 1) * step for _ in range(n)]
+    elif flavour == "ulps":              # neighbouring doubles: boundaries differ in their 16th-17th significant digit
+        k = rng.randint(3, 10)
+        base, step = rng.choice([(1.0, 2.0 ** -52), (2.0 ** 60, 256.0), (-1.0, 2.0 ** -53), (123.0, 2.0 ** -46)])
         xs = [base + rng.randint(0, k - 1) * step for _ in range(n)]
     elif flavour == "near_constant":     # a single interval [inf] remains after the base discretization
         base = rng.choice([0.0, 1.0, -3.5, 1e6])
@@ -163,6 +167,8 @@ def gen_case(rng, cls=None, force=None):
     if rng.random() < 0.2:
         case["kwargs"] = rng.choice([{"str_nan": "MISSING"}, {"str_default": "RARE"},
                                      {"str_nan": "MISSING", "str_default": "RARE"}])
+    # read-only queries made between fit and transform (they must not change what transform returns)
+    case["pre_queries"] = rng.random() < 0.4
     return case
 
 
@@ -254,6 +260,12 @@ def fit_object(case):
             obj = load_carver(js)
         else:
             obj = load_discretizer(js)
+    if case.get("pre_queries"):
+        obj.summary()
+        for f in list(obj.features)[:2]:
+            obj.summary(f)
+        if hasattr(obj, "history") and getattr(obj, "_history", None) is not None:
+            obj.history()
     return obj
 
 
